@@ -39,12 +39,20 @@ def main():
     a = ap.parse_args()
     out = {"obs": {}, "special": {}, "sim": {}}
     for name, (cls, simcls) in MODELS.items():
+        if cls is None:      # the public name is gone
+            out["obs"][name] = [-1] * 4096
+            out["special"][name] = [{"v": repr(v), "low": low, "obs": -1, "finite": False} for v, low in SPECIAL]
+            out["sim"][name] = [{"d": ucm(d), "obs": -1, "helper_ok": False} for d in SIM_D + SIM_D]
+            continue
         s = cls(PORTS[name])
         sim = AnalogInputSim(s.distance)
         obs = []
         for k in range(4096):
             sim.setVoltage(5.0 * k / 4096)
-            obs.append(ucm(s.getDistance()))
+            try:
+                obs.append(ucm(s.getDistance()))
+            except Exception:  # noqa
+                obs.append(-1)
         out["obs"][name] = obs
         sp = []
         for v, low in SPECIAL:
@@ -55,8 +63,12 @@ def main():
             except Exception as e:  # noqa
                 sp.append({"v": repr(v), "low": low, "obs": -1, "finite": False, "err": str(e)})
         out["special"][name] = sp
-        helper = simcls(s)
         sm = []
+        try:
+            helper = simcls(s)
+        except Exception as e:  # noqa  (e.g. the helper refuses the sensor object)
+            out["sim"][name] = [{"d": ucm(d), "obs": -1, "helper_ok": False, "err": "helper: %s" % e} for d in SIM_D + SIM_D]
+            continue
         for i, d in enumerate(SIM_D):
             try:
                 # three ways to get there: a helper that has been used before, a fresh helper whose first call
